@@ -137,6 +137,14 @@ var (
 		fixedSM2("6fcba2ef9ae0ab902bc3bde3ff915d44ba4cc78f88e2f8e7f8996d3b8cceedee"),
 		fixedSM2("5dd701828c424b84c5d56770ecf7c4fe882e654cac53c7cc89a66b1709068b9d"), // stranger
 	}
+	// SM2 keys whose scalar has 31, 30 and 29 significant bytes, and one whose public point has a coordinate with a
+	// leading zero byte (found by a fixed search): fixed-width encodings must keep them as they are
+	sm2ShortKeys = map[string]*sm2.PrivateKey{
+		"sm2d31":  fixedSM2("00c5208f7b2144b13f36e38ac6d39f95889393692860b51a42fb81ef4df7c5b8"),
+		"sm2d30":  fixedSM2("0000a08f7b2144b13f36e38ac6d39f95889393692860b51a42fb81ef4df7c5b8"),
+		"sm2d29":  fixedSM2("0000007f7b2144b13f36e38ac6d39f95889393692860b51a42fb81ef4df7c5b8"),
+		"sm2pub0": shortPointKey(),
+	}
 	rsaKeys   []*rsa.PrivateKey
 	sm2Certs  []*x509.Certificate // certificate i belongs to sm2Keys[i]
 	rsaCerts  []*x509.Certificate
@@ -537,7 +545,23 @@ func runS(f []string) string {
 // ---------------------------------------------------------------------------------------------
 // PKCS#12
 
+// the first scalar from a fixed start whose public X or Y has a leading zero byte
+func shortPointKey() *sm2.PrivateKey {
+	d, _ := new(big.Int).SetString("128b2fa8bd433c6c068c8d803dff79792a519a55171b1b650c23661d15890000", 16)
+	for i := 0; i < 100000; i++ {
+		k := fixedSM2(d.Text(16))
+		if len(k.X.Bytes()) < 32 || len(k.Y.Bytes()) < 32 {
+			return k
+		}
+		d.Add(d, big.NewInt(1))
+	}
+	panic("no short coordinate found")
+}
+
 func p12Key(kind string) interface{} {
+	if k, ok := sm2ShortKeys[kind]; ok {
+		return k
+	}
 	switch kind {
 	case "sm2":
 		return sm2Keys[0]
@@ -551,9 +575,16 @@ func p12Key(kind string) interface{} {
 func keyD(k interface{}) string {
 	switch t := k.(type) {
 	case *sm2.PrivateKey:
-		return t.D.Text(16)
+		// the scalar AND the public point: a decoder that rebuilds the point from a wrong scalar must not pass
+		if t.X == nil || t.Y == nil {
+			return t.D.Text(16) + ":nil"
+		}
+		return t.D.Text(16) + ":" + t.X.Text(16) + ":" + t.Y.Text(16)
 	case *ecdsa.PrivateKey:
-		return t.D.Text(16)
+		if t.X == nil || t.Y == nil {
+			return t.D.Text(16) + ":nil"
+		}
+		return t.D.Text(16) + ":" + t.X.Text(16) + ":" + t.Y.Text(16)
 	case *rsa.PrivateKey:
 		return t.D.Text(16)
 	}
@@ -990,6 +1021,8 @@ func runCase(line string) string {
 			return runSEL(f)
 		case "SGN":
 			return runSGN(f)
+		case "PF":
+			return runPF(f)
 		case "PW":
 			return runPW(f)
 		case "PL":
@@ -1130,6 +1163,22 @@ func gen(seed uint64, tier string) []string {
 					add("P # %s %s %s %s", pk, kk, ck, api)
 				}
 			}
+		}
+	}
+	// SM2 keys with leading zero bytes in the scalar (31, 30, 29 significant bytes) or in a public coordinate: the
+	// decoded key must be the original scalar and point exactly
+	for _, kk := range []string{"sm2d31", "sm2d30", "sm2d29", "sm2pub0"} {
+		for _, pk := range []string{"ascii", "empty", "nonascii"} {
+			for _, api := range []string{"decodeall", "decodeall+ca", "topem", "wrongpw"} {
+				add("P # %s %s %s %s", pk, kk, "sm2cert", api)
+			}
+			add("P # %s %s %s %s", pk, kk, "rsacert", "decode")
+		}
+	}
+	// structural forgeries by somebody without the password (pf.go)
+	for _, pk := range []string{"ascii", "empty", "nonascii"} {
+		for _, v := range pfVariants {
+			add("PF # %s %s", pk, v)
 		}
 	}
 	// a password outside the BMP cannot be written as a BMPString: Encode refuses it (one case per key kind is enough)
